@@ -37,7 +37,7 @@ where
         Some(field::Value::Array(field::value::Array::String(values))) => {
             write_string_array_value(writer, values)
         }
-        _ => todo!("unhandled INFO field value: {:?}", value),
+        None => value::write_value(writer, None),
     }
 }
 
